@@ -17,7 +17,7 @@ from koala.graph_utils import adjacent_plaquettes, vertex_neighbours
 
 DRIVERS = ("c11",)
 MODEL_TARGETS = ["Model/AStar.vo", "Model/Metric.vo", "Model/FluxSolver.vo"]
-TARGETS = ["Proofs/AStarFacts.vo", "Proofs/MetricFacts.vo", "Proofs/ChainFlipFacts.vo"]
+TARGETS = ["Proofs/AStarFacts.vo", "Proofs/AStarOptimal.vo", "Proofs/AStarBudget.vo", "Proofs/MetricFacts.vo", "Proofs/ChainFlipFacts.vo"]
 LEVEL = "proof"
 TRUST = [
     "hand-written Gallina model coq/Model/AStar.v of pathfinding.py a_star_search_forward_pass / a_star_search_backward_pass "
@@ -33,6 +33,12 @@ ASSUMPTIONS = ["connected lattice (vertex graph resp. plaquette-adjacency graph)
 
 MARGIN = 1e-9
 TOL = 1e-9
+# A full search (early_stopping=False) needs n_edges + 1 iterations on tree-like lattices (theorem
+# C11_budget_n_edges_full_search_refuted; on /repo: a 3-vertex chain, honeycomb_lattice(2) cut in x and y, a quadrilateral with
+# a 2-edge tail).  Those lattices are outside the quantified families (no plaquette / not a Voronoi lattice, tiling or cut of
+# one), so by default the probes are recorded in the evidence and K-compared only.  Set to True to report them as
+# violations (stable key "full-search-needs-n_edges-plus-1") if the lead decides the literal statement is the contract.
+REPORT_FULL_SEARCH_BUDGET = False
 METRICS = {"euclid": pf.straight_line_length, "periodic": pf.periodic_straight_line_length}
 
 
@@ -150,7 +156,7 @@ def c11_cases(tier, seed):
                     ("square_lattice", [2, 9]), ("honeycomb_lattice", [12])]
     for name, args in tilings:
         cases.append({"family": "example", "name": name, "args": args})
-    nv = 10 if tier == "quick" else 40
+    nv = 20 if tier == "quick" else 40
     nmax = 120 if tier == "quick" else 400
     for i in range(nv):
         style = gen.POINT_STYLES[i % 4]      # uniform, clustered, two_cluster, jittered
@@ -254,6 +260,10 @@ def eval_combo(ctx, case, lat, kind, metric, pairs, rng, label, maxits=None, pro
             res.violation("path-crash", f"{kind} path {s}->{g} metric={metric} early={early}: {r[1]}", rcase)
             continue
         if r[0] == "E":
+            if probe and not early and REPORT_FULL_SEARCH_BUDGET:
+                res.violation("full-search-needs-n_edges-plus-1",
+                              f"{kind} path {s}->{g} metric={metric} early_stopping=False maxits=n_edges={maxits} on a connected lattice: PathFindingError (n_edges+1 iterations are needed)", rcase)
+                continue
             if probe and not early:
                 # out-of-domain probe (tree-like lattice), full search: needs n_edges + 1 iterations (C11_budget_n_edges_full_search_refuted);
                 # recorded, not a violation; K: the model must fail too (or be a near-tie).  With early stopping n_edges iterations
@@ -445,16 +455,16 @@ def eval_metrics(ctx, pts, label):
 def run(ctx):
     ctx.res.rule = ("lattices: tilings, periodic Voronoi (9..120 seeds quick / ..400 thorough, 4 point styles, both shift settings), their x/y/xy cuts, small example graphs; "
                     "graphs not connected are skipped; per lattice x {plaquette graph, vertex graph} x {euclid, periodic} x {early, full}: all ordered (start, goal) pairs "
-                    "when the graph has <= 12 (quick) / 40 (thorough) nodes, random pairs + start==goal otherwise, maxits = n_edges; metrics: 600/6000 exact dyadic point pairs in [0,1)^2 "
+                    "when the graph has <= 16 (quick) / 40 (thorough) nodes, random pairs + start==goal otherwise, maxits = n_edges; metrics: 600/6000 exact dyadic point pairs in [0,1)^2 "
                     "incl. grid points, coincident and boundary-hugging pairs; non-trivial = start != goal (resp. distinct points)")
     quick = ctx.tier == "quick"
     eval_metrics(ctx, metric_points(ctx.tier, ctx.seed), "K(metric)")
-    evaluate(ctx, c11_cases(ctx.tier, ctx.seed), "K(astar)", 12 if quick else 40, 12 if quick else 100)
+    evaluate(ctx, c11_cases(ctx.tier, ctx.seed), "K(astar)", 16 if quick else 40, 24 if quick else 100)
 
 
 def search(ctx):
     eval_metrics(ctx, metric_points("thorough", ctx.seed + 1), "search")
-    evaluate(ctx, c11_cases(ctx.tier, ctx.seed + 1), "search", 12 if ctx.tier == "quick" else 40, 20 if ctx.tier == "quick" else 100)
+    evaluate(ctx, c11_cases(ctx.tier, ctx.seed + 1), "search", 16 if ctx.tier == "quick" else 40, 30 if ctx.tier == "quick" else 100)
 
 
 def replay(ctx, payload):
